@@ -2,6 +2,7 @@
 # try_seed.sh <seed-id> [<prop>] [tier]: apply seeded/<seed-id>/patch.diff to /repo, run the check, undo.
 sid=$1; prop=${2:-$(python3 -c "import json;print(json.load(open('/verif/seeded/$sid/meta.json'))['property'])")}; tier=${3:-quick}
 cd /verif
+if [ -z "$SAMVERIF_HAVE_REPO_LOCK" ]; then exec /verif/vlib/repo_lock.sh "$0" "$@"; fi
 if ! git -C /repo diff --quiet; then echo "/repo has uncommitted changes; refusing"; exit 2; fi
 git -C /repo apply /verif/seeded/$sid/patch.diff || exit 2
 ./check $prop --tier $tier; rc=$?
